@@ -48,7 +48,7 @@ P("C01", RM + "panic/overflow/internal-error/progress monitors over hostile gene
 
 P("C02", RM + "recorded handler invocations compared with an independent header resolver (order-preserving path embedding) over random unambiguous trees and message histories",
   "random unambiguous trees (depth<=5, fan-out<=6, default leaves/branches, anonymous default leaf, suffix siblings, common commands) x histories of 1-4 messages x 1-8 units: absolute, relative, common headers, "
-  "optional nodes omitted or spelled, short/long form, random case, suffix 1 added/dropped, plus hostile units (past a leaf, stops on a branch, near miss, needs going up, other suffix). "
+  "optional nodes omitted or spelled, short/long form, random case, suffix 1 added/dropped, plus hostile units (past a leaf, stops on a branch, near miss, needs going up, other suffix). Stage macro-tree: the same oracle on a tree written with the library's Root!/Branch!/Leaf! macros (every arm); handlers answer arbitrary meta() hints. "
   "Oracle: refm/resolver.rs designates handler and new level per unit; undefined header => -113, no invocation for it nor after it, hook once. Non-trivial = distinct (tree shape, unit-kind sequence).",
   ["ambiguous trees are out of scope (SCPI designates nothing); generator rejects them and the resolver reports any it meets"],
   floors={"quick": {"evaluations": 300_000, "messages.undefined-header": 30_000, "messages.ok": 100_000}, "thorough": {"evaluations": 10_000_000}})
@@ -56,7 +56,7 @@ P("C02", RM + "recorded handler invocations compared with an independent header 
 P("C04", RM + "library token stream and handler-visible tokens compared element-by-element (kinds and byte ranges) with an independent three-valued IEEE 488.2 reference lexer; end-to-end rejection check for ill-formed input; bounded-exhaustive sweep",
   "grammar-generated messages (all seven data types, separators/terminators inside strings, blocks, expressions, every legal white-space placement, indefinite block last, with/without NL), 14 targeted corruption operators, "
   "and all strings of length<=5 (quick)/6 (thorough) over 22 class representatives. Reference Accept => token sequence and payload byte ranges identical (pointer arithmetic), handlers see exactly the data of their unit; "
-  "Reject => Node::run with omnivorous handlers on a maximally permissive tree returns a command error; Unspecified zones give no verdict. Non-trivial = distinct accepted/rejected inputs.",
+  "Reject => Node::run with omnivorous handlers on a maximally permissive tree returns a command error; Unspecified zones give no verdict. Non-trivial = distinct accepted/rejected inputs. Every unit's data region is also lexed through Tokenizer::new_params (same elements, same byte ranges).",
   ["the reference lexer is my reading of 488.2 section 7; zones the standard/project leave open are listed in DESIGN.md 3.1 and give no verdict",
    "white space before the first header is attributed to Node::run (compared end-to-end), the bare Tokenizer is compared from the first non-blank byte"],
   floors={"quick": {"evaluations": 5_000_000, "generated.ref.accept": 500_000, "corrupted.ref.reject": 300_000, "tokens.offered-to-handlers": 1_000_000},
@@ -91,7 +91,7 @@ P("C08", RM + "offline checker (decimal->binary rounding from first principles w
 P("C09", RM + "round-trip oracle: emitted response text decoded by independent decoders and by the library's own parser must give back the formatted value; exhaustive for 8/16-bit integers (and all 2^32 f32 patterns in thorough); Miri on extreme numbers",
   "integers: all u8/i8/u16/i16 (decimal; #H/#Q/#B for non-negative), boundary+random 32/64/size; f32: strided sample of all bit patterns (quick) / all 2^32 (thorough); f64: subnormals, powers of 2 and 10, 2^53 neighbourhood, 17-digit cases, random bits; "
   "bool; ASCII strings with quotes/separators/control characters (non-ASCII must be refused); blocks around every header-width change up to 10^4 (10^6 thorough); &str; character and expression data; Vec/ArrayVec lists (empty refused); "
-  "derived enums incl. suffix siblings; every standard error (found by sweeping get_error over all i16) and custom errors with/without extended text. Non-trivial = distinct values.",
+  "derived enums incl. suffix siblings; every standard error (found by sweeping get_error over all i16) and custom errors with/without extended text. Lists of strings/floats/booleans/error items/enums; every kind of value formatted behind a header, earlier data or an earlier unit and into ArrayVec (text must not depend on formatter contents/kind); relations between message and extended text (equal, prefix, empty). Non-trivial = distinct values.",
   ["NaN/infinities are only checked against the SCPI sentinels; lower-case exponent mark (lexical-core's 1.0e10, pinned by the project's own tests) is counted as an observation, not judged"],
   quick=[REL, DBG, COMPACT, miri(16, 900)], thorough=[REL, DBG, COMPACT, miri(16, 3600, ["--tier", "thorough"], 1500), asan(["--stages", "int,f64,text,errors", "--scale", "0.3"])],
   floors={"quick": {"evaluations": 5_000_000, "f32.checked": 3_000_000, "string.checked": 100_000, "list.checked": 100_000}, "thorough": {"evaluations": 4_000_000_000}})
@@ -138,27 +138,27 @@ P("C16", RM + "history monitor: *STB? composition (incl. MAV and MSS), *ESE/*SRE
 
 P("C17", RM + "differential oracle: NumericValue<T> recognition against the keyword list and the underlying T conversion, resolution against a reference resolver, invariant min<=v<=max on every success; 14 underlying types",
   "data elements: decimal literals in every spelling (on, next to and far from the bounds), MIN/MAX/DEF/UP/DOWN in short/long form and random case, 22 near misses (MAXI, DEFA, UPP, INF, ...), non-numeric elements; "
-  "types: 10 integer types, f32, f64, Time<f32>, Frequency<f32>; bounds min<=max incl. min==max, default inside or absent. Non-trivial = distinct (element, type).",
+  "types: 10 integer types, f32, f64, Time<f32>, Frequency<f32>; bounds min<=max incl. min==max, default inside or absent. Ranges open on either side (infinite bounds), one NaN limit (values must be refused), default outside the bounds (default or -222), NumericBuilder::new, setters called repeatedly and in every order. Non-trivial = distinct (element, type).",
   quick=[REL, DBG, COMPACT], thorough=[REL, DBG, COMPACT],
   floors={"quick": {"evaluations": 2_000_000, "elements.keyword": 50_000, "resolve.value-on-bound": 10_000}, "thorough": {"evaluations": 100_000_000}})
 
 P("C18", RM + "differential oracle: an independent SCPI-99 suffix table (exact factors, temperature offsets) against the converted quantity in f32 and f64 storage; rejection of undefined suffixes; amplitude/decibel classification",
   "14 quantities x every defined suffix x random case patterns x NRf literals (value compared within 3e-6 / 1e-12 relative, no verdict outside 1e-30..1e30 / 1e-290..1e290), bare numbers, through the real lexer; "
-  "undefined suffixes: suffixes of other quantities, undefined multipliers, one-character near misses, random strings <=12; non-numeric elements; PK/PP/RMS and DBV/DBMV/DBUV classification with the number untouched. Non-trivial = distinct (quantity, suffix spelling, literal).",
+  "undefined suffixes: suffixes of other quantities, undefined multipliers, one-character near misses, random strings <=12; non-numeric elements; PK/PP/RMS and DBV/DBMV/DBUV classification with the number untouched. 130 alias spellings (DEGC, VOLTS, MSEC...), every suffix with one letter added, DB glued to linear suffixes, SCPI sentinel numbers as literals. Non-trivial = distinct (quantity, suffix spelling, literal).",
   ["bare temperature is accepted as kelvin or degree Celsius; ANN as 365 or 365.25 days; EV within 1e-5"],
   quick=[REL, DBG, COMPACT], thorough=[REL, DBG, COMPACT],
   floors={"quick": {"evaluations": 2_000_000, "undefined-suffix.rejected": 500_000}, "thorough": {"evaluations": 100_000_000}})
 
 P("C19", RM + "items yielded by ChannelList / NumericList / ChannelSpec iterators and tuple conversions compared with a reference list parser, incl. the listed corruption classes; Miri on the cursor arithmetic",
   "grammar-generated lists of 0-20 entries: 1-3 dimensional specs, ranges, quoted path names with any ASCII incl. doubled quotes; numeric entries in every NRf spelling, ranges; corruptions: leading/doubled comma, foreign character in entry position, "
-  "range dimension mismatch, third range end, missing separator (numeric lists); directly and through the lexer + Parameters::next_data. Non-trivial = distinct expressions.",
+  "range dimension mismatch, third range end, missing separator (numeric lists); directly and through the lexer + Parameters::next_data. Every other way the Iterator trait offers of walking a well-formed list/spec (nth after next, count, last, step_by, skip, size_hint) must agree with plain iteration; channel numbers at the limits of isize and narrower widths, minus zero. Non-trivial = distinct expressions.",
   ["white space inside list expressions and a missing separator between channel-list entries are not specified by the statement and are not generated"],
   quick=[REL, DBG, COMPACT, miri(16, 900)], thorough=[REL, DBG, COMPACT, miri(16, 3600, ["--tier", "thorough"], 1500)],
   floors={"quick": {"evaluations": 1_000_000, "spec.iterated": 500_000, "numeric.corruption.missing-separator": 5_000}, "thorough": {"evaluations": 40_000_000}})
 
 P("C20", RM + "generated programs: a committed corpus of 300 derived enum definitions (1851 variants) compiled into the harness; from_mnemonic / TryFrom<Token> / mnemonic() / response text monitored against the matching rule",
   "corpus: 1-16 variants, unit and single-field variants, mnemonics with/without lower-case tail and suffix, siblings differing only in suffix, explicit ...1 next to ...2 (tools/gen_enums.py guarantees pairwise non-matching mnemonics). "
-  "Per variant: all case patterns of short/long form with suffix variants, prefixes/extensions, single edits, random data <=12, the other variants' forms; other element kinds. Non-trivial = distinct (enum, datum) near a defined mnemonic.",
+  "Per variant: all case patterns of short/long form with suffix variants, prefixes/extensions, single edits, random data <=12, the other variants' forms; other element kinds. Plus 23 realistic definitions (ON/OFF, MIN/MAX/DEF, TRUE/FALSE, trigger sources, the library's own NumericValueQuery ...). Non-trivial = distinct (enum, datum) near a defined mnemonic.",
   ["the corpus is finite (300 definitions); leading-zero suffixes give no verdict"],
   floors={"quick": {"evaluations": 3_000_000, "candidates.designating-a-variant": 500_000, "other-element-kinds.rejected-with-104": 10_000}, "thorough": {"evaluations": 100_000_000}})
 
